@@ -14,7 +14,16 @@ role: 'decl' | 'ref' | 'label' | 'prop'; binding: an opaque id shared by all
 occurrences of one variable, or None for a free (undeclared) name.
 """
 
+import re
 from vk.ref import refjs
+
+
+_UESC = re.compile(r'\\u([0-9a-fA-F]{4})')
+
+
+def _name(spelling):
+    """the name a spelling stands for (ES5 7.6: unicode escapes in identifiers denote the character)"""
+    return _UESC.sub(lambda m: chr(int(m.group(1), 16)), spelling) if '\\' in spelling else spelling
 
 
 class Occ(object):
@@ -85,16 +94,16 @@ def _hoist(node, scope, catch_names=(), catch_var_stays=False):
     if k in ('FuncExpr', 'GetPropAssign', 'SetPropAssign'):
         return
     if k == 'FuncDecl':
-        name = node.attrs['identifier'].attrs['value']
+        name = _name(node.attrs['identifier'].attrs['value'])
         if not (catch_var_stays and name in catch_names):
             scope.names.add(name)
         return
     if k in ('VarDecl', 'VarDeclNoIn'):
-        name = node.attrs['identifier'].attrs['value']
+        name = _name(node.attrs['identifier'].attrs['value'])
         if not (catch_var_stays and name in catch_names):
             scope.names.add(name)
     if k == 'Catch':
-        catch_names = tuple(catch_names) + (node.attrs['identifier'].attrs['value'],)
+        catch_names = tuple(catch_names) + (_name(node.attrs['identifier'].attrs['value']),)
     for v in node.attrs.values():
         _hoist(v, scope, catch_names, catch_var_stays)
 
@@ -116,7 +125,7 @@ def resolve(res, fexpr_name_in_enclosing_scope=False, catch_var_stays=False):
         return s
 
     def ident(node, role, scope):
-        o = Occ(node.first, node.attrs['value'], role, None, None)
+        o = Occ(node.first, _name(node.attrs['value']), role, None, None)
         out.occ.append(o)
         if role in ('ref', 'decl'):
             pending.append((o, scope))
@@ -125,7 +134,7 @@ def resolve(res, fexpr_name_in_enclosing_scope=False, catch_var_stays=False):
     def function(node, scope, params, body, name_node=None, declaration=False):
         fs = new_scope('function', scope)
         for p in params:
-            fs.names.add(p.attrs['value'])
+            fs.names.add(_name(p.attrs['value']))
         _hoist(body, fs, (), catch_var_stays)
         for p in params:
             ident(p, 'decl', fs)
@@ -160,7 +169,7 @@ def resolve(res, fexpr_name_in_enclosing_scope=False, catch_var_stays=False):
                 if fexpr_name_in_enclosing_scope:
                     # the deviating implementation forwards every declaration made in a catch block,
                     # other than the catch parameter itself, to the scope around the catch clause
-                    nm = a['identifier'].attrs['value']
+                    nm = _name(a['identifier'].attrs['value'])
                     tgt = scope
                     while tgt.kind == 'catch' and nm not in tgt.names:
                         tgt = tgt.parent
@@ -168,7 +177,7 @@ def resolve(res, fexpr_name_in_enclosing_scope=False, catch_var_stays=False):
                     ident(a['identifier'], 'decl', tgt)
                 else:
                     inner = new_scope('fexpr', scope)
-                    inner.names.add(a['identifier'].attrs['value'])
+                    inner.names.add(_name(a['identifier'].attrs['value']))
                     ident(a['identifier'], 'decl', inner)
             function(node, inner, a['parameters'], a['elements'])
         elif k == 'GetPropAssign':
@@ -182,7 +191,7 @@ def resolve(res, fexpr_name_in_enclosing_scope=False, catch_var_stays=False):
             visit(a['initializer'], scope)
         elif k == 'Catch':
             cs = new_scope('catch', scope)
-            cs.names.add(a['identifier'].attrs['value'])
+            cs.names.add(_name(a['identifier'].attrs['value']))
             out.n_catch += 1
             ident(a['identifier'], 'decl', cs)
             visit(a['elements'], cs)
@@ -208,7 +217,7 @@ def resolve(res, fexpr_name_in_enclosing_scope=False, catch_var_stays=False):
             visit(a['statement'], scope)
         elif k == 'FunctionCall':
             f = a['identifier']
-            if isinstance(f, refjs.R) and f.kind == 'Identifier' and f.attrs['value'] == 'eval':
+            if isinstance(f, refjs.R) and f.kind == 'Identifier' and _name(f.attrs['value']) == 'eval':
                 out.dynamic = True
             visit(f, scope)
             visit(a['args'], scope)
